@@ -422,10 +422,14 @@ pub fn c19(tier: Tier) -> i32 {
 // ------------------------------------------------------------------------------------------
 
 fn c07_cfg(a: u16, b: u16, third: Option<u16>, depth: usize) -> TxnCfg {
+    c07_cfg_metrics(a, b, third, depth, Metric::Euclidean, Metric::Cosine)
+}
+
+fn c07_cfg_metrics(a: u16, b: u16, third: Option<u16>, depth: usize, ma: Metric, mb: Metric) -> TxnCfg {
     let dim = 2;
     let vecs = plain_vectors(dim);
     let mut menu = Vec::new();
-    let mut indexes = vec![(a, Metric::Euclidean, dim), (b, Metric::Cosine, dim)];
+    let mut indexes = vec![(a, ma, dim), (b, mb, dim)];
     for (index, _, _) in indexes.clone() {
         menu.push(Action::Add { index, id: 0, vec: vecs[0].clone() });
         menu.push(Action::Add { index, id: 1, vec: vecs[1].clone() });
@@ -451,7 +455,7 @@ fn c07_cfg(a: u16, b: u16, third: Option<u16>, depth: usize) -> TxnCfg {
         // the forest oracle too: a build that *reads* a neighbour's nodes damages the index being built
         obs: TxnObs { isolation: true, forest: true, ..Default::default() },
         probe_ids: vec![0, 1, u32::MAX - 1, u32::MAX],
-        label: format!("idx{a}-idx{b}{}-depth{depth}", third.map_or(String::new(), |t| format!("-idx{t}"))),
+        label: format!("idx{a}-{}-idx{b}-{}{}-depth{depth}", ma.short(), mb.short(), third.map_or(String::new(), |t| format!("-idx{t}"))),
     }
 }
 
@@ -473,6 +477,12 @@ pub fn c07(tier: Tier) -> i32 {
                 }
             }
             runs.push((c07_cfg(255, 256, Some(257), 5), caps(10)));
+            // the metrics that rewrite their leaves while building (DotProduct's preprocessing pass) or that
+            // store quantised vectors, as the lower and as the higher index of a pair
+            for (ma, mb) in [(Metric::DotProduct, Metric::Euclidean), (Metric::Manhattan, Metric::DotProduct), (Metric::BqCosine, Metric::DotProduct), (Metric::DotProduct, Metric::BqEuclidean)] {
+                runs.push((c07_cfg_metrics(0, 1, None, 5, ma, mb), caps(10)));
+                runs.push((c07_cfg_metrics(65534, 65535, None, 4, ma, mb), caps(6)));
+            }
         }
         Tier::Thorough => {
             for a in lattice {
@@ -484,6 +494,13 @@ pub fn c07(tier: Tier) -> i32 {
             }
             for (a, b, c) in [(0u16, 1u16, 2u16), (255, 256, 257), (65533, 65534, 65535)] {
                 runs.push((c07_cfg(a, b, Some(c), 6), caps(120)));
+            }
+            for ma in M7 {
+                for mb in M7 {
+                    if ma != mb && (ma == Metric::DotProduct || mb == Metric::DotProduct || ma.is_bq() != mb.is_bq()) {
+                        runs.push((c07_cfg_metrics(255, 256, None, 6, ma, mb), caps(30)));
+                    }
+                }
             }
         }
     }
